@@ -4,6 +4,9 @@ package transport
 
 // Contracts for the deductive checker in /verif (comment-only file, no declarations).
 
+// package-level pools are set by their initialisers (pool.NewBytesBufPool never returns nil)
+//@ axiom bufPool4k != nil
+
 //@ func (u *DoHTransport) Close() (err error)
 //@   props C18
 //@   requires u != nil
